@@ -40,3 +40,7 @@ def run(ctx):
     ctx.floor("M3", 3)
     ctx.floor("M4", 10)
     ctx.floor("M5", 3)
+    # what the derived forms override must be what runs: no copy of an overridden delegate, no call pinned to the base class
+    from ..engines import dispatch as DP
+    DP.d1_no_bypass_of_overridden_delegates(ctx, ("AbstractRule",))
+    ctx.floor("D1", 1)
